@@ -206,6 +206,22 @@ fn gen(s: &mut Src, exh: u32, kind: Kind) -> Case {
         }
         _ => {}
     }
+    // Wide scale, drawn after everything else (byte-encoded cases written before this existed decode as before): one
+    // case in four multiplies the duration, every offset from the base and every clock lag by K (seconds, minutes,
+    // hours, a day, or an odd factor) and then moves each timestamp by -1, 0 or +1 ms, so that events sit ON, just below
+    // and just above the window boundaries of durations far from the 1..25 ms the small domain uses.
+    let mut d = d;
+    if s.chance(1, 4) {
+        let k = [1000u64, 1001, 60_000, 3_600_000, 86_400_000, (1 << 20) + 1, 999_983][s.below(7)];
+        d *= k;
+        for t in ts.iter_mut() {
+            let j = s.below(3) as u64;
+            *t = (base + (*t - base) * k + j).saturating_sub(1).max(if base == 0 { 0 } else { 1 });
+        }
+        for l in lags.iter_mut() {
+            *l *= k as i64;
+        }
+    }
     let mut clock = 0u64;
     let evs = ts
         .into_iter()
@@ -428,6 +444,9 @@ fn classify_tumbling(case: &Case, ctx: &mut Ctx, tag: &str) {
     let w = case.d;
     let evs = &case.evs;
     ctx.label(order_label(case));
+    if case.d > 25 {
+        ctx.label("wide-scale-duration(>25ms)");
+    }
     let mut ooo = false;
     for j in 0..evs.len() {
         for i in 0..j {
@@ -668,6 +687,9 @@ pub fn run_tw(s: &mut Src, ctx: &mut Ctx) -> Verdict {
         prev = cur;
     }
     ctx.label(order_label(&case));
+    if case.d > 25 {
+        ctx.label("wide-scale-duration(>25ms)");
+    }
     let mut ooo = false;
     for j in 0..case.evs.len() {
         for i in 0..j {
@@ -772,6 +794,9 @@ pub fn run_record(s: &mut Src, ctx: &mut Ctx) -> Verdict {
         prev = cur;
     }
     ctx.label(order_label(&case));
+    if case.d > 25 {
+        ctx.label("wide-scale-duration(>25ms)");
+    }
     if ooo {
         ctx.label("out-of-order-in-span");
     }
@@ -929,6 +954,9 @@ pub fn run_san(s: &mut Src, ctx: &mut Ctx) -> Verdict {
     }
     ctx.label(if case.tumbling { "tumbling" } else { "sliding" });
     ctx.label(order_label(&case));
+    if case.d > 25 {
+        ctx.label("wide-scale-duration(>25ms)");
+    }
     if n_acc > 0 {
         ctx.label("some-accepted");
     }
